@@ -1266,11 +1266,15 @@ def _sqrt_scalar(v):
         r = math.isqrt(int(v)) if _isinstance(v, int) else None
         if r is not None and r * r == v:
             return r
+        if SCALAR_MODE == 'A':
+            from . import apoly
+            return apoly.sqrt(Fraction(v))
         return _sc.zsqrt(Z.lift(v)) if _SQRT_HOOK is None else _SQRT_HOOK(v)
     unsupported('sqrt of %s' % type(v).__name__)
 
 
 _SQRT_HOOK = None
+SCALAR_MODE = 'Z'
 
 
 def sqrt(t):
